@@ -32,18 +32,20 @@ def cased_op(op, mode):
     return dict(op, k=L.apply_case(op['k'], mode), sfx=L.apply_case(op['sfx'], mode), msfx=L.apply_case(op['msfx'], mode))
 
 
-def run_once(project, config, ops, classes, root, iface=False):
-    """One batch run on the rendering selected by `classes` -> projection (SchedCase part 1)."""
+def run_once(project, config, ops, classes, root, iface=False, renames=None, lseed=0):
+    """One batch run on the rendering selected by `classes` -> projection (SchedCase part 1).
+    renames: imported callees rendered under local aliases (lib_sched.render_project); lseed: seed of the per-occurrence
+    case choices (class mode 'each')."""
     names, toks = L.Interner(), L.Interner()
     run = {'names': names.table, 'items': [], 'edges': [], 'visits': [], 'files': [], 'toks': toks.table, 'raised': ''}
     shutil.rmtree(root, ignore_errors=True)
     os.makedirs(root)
     stage = 'build'
     try:
-        lay = L.ClassLayout(classes)
+        lay = L.ClassLayout(classes, lseed)
         fids = list(dict.fromkeys([m['file'] for m in project['mods']] + [p['file'] for p in project['procs']]))
         suf = '.F90' if classes.get('sfx', 'lower') != 'lower' else '.f90'
-        paths = L.render_project(project, root, layout=lay, suffixes={f: suf for f in fids}, iface=iface)
+        paths = L.render_project(project, root, layout=lay, suffixes={f: suf for f in fids}, iface=iface, renames=renames)
         cfg_dict, seeds = L.render_config(config, lay, enable_imports=True)
         sched = L.build_scheduler(root, cfg_dict, seeds, True)
         for n, op in enumerate(ops):
@@ -105,6 +107,60 @@ def permutations(rng, n, idx):
     while len(out) < n:
         sel = [c for c in CLASSES if rng.random() < 0.5] or [rng.choice(CLASSES)]
         out.append({c: rng.choice(['upper', 'mixed', 'cap']) for c in sel})
+    return out
+
+
+# --------------------------------------------------------------------------------------------
+# renamed imports: `use m, only: alias => k` and `use m, alias => k` (no ONLY list), calls by the alias
+
+def rename_requests(rng, project, p_each=0.8):
+    """{"mod#proc": {callee: alias}} for the callees a procedure reaches through its OWN imports."""
+    req = {}
+    for p in project['procs']:
+        m = {c: f'{c}_al' for c in dict.fromkeys(p['calls']) if c != p['name'] and rng.random() < p_each}
+        if m and L.proc_renames(project, p, {L.full_name(p): m}):
+            req[L.full_name(p)] = {c: a for im in L.proc_renames(project, p, {L.full_name(p): m}).values() for c, a in im.items()}
+    return req
+
+
+def rename_styles(project, renames):
+    """Which kinds of renaming imports a rendering contains: 'unq' (rename list without ONLY) / 'only'."""
+    st = set()
+    for p in project['procs']:
+        for n, _ in L.proc_renames(project, p, renames).items():
+            st.add('only' if p['imports'][n]['only'] else 'unq')
+    return st
+
+
+def rename_family(rng, n):
+    """Small projects built around renamed imports: a module m1 (k1 -> k2, k3), optionally m2 (k4); callers (free or in a
+    module m3) import through `use m` (no ONLY list) or `use m, only: ...` at routine level and call 1..3 of the kernels."""
+    out = []
+    for i in range(n):
+        mods = [{'name': 'm1', 'file': 'm1', 'vars': ['v_m1']}]
+        procs = [{'name': 'k1', 'mod': 'm1', 'calls': ['k2'] if rng.random() < 0.5 else []}, {'name': 'k2', 'mod': 'm1', 'calls': []},
+                 {'name': 'k3', 'mod': 'm1', 'calls': []}]
+        two = rng.random() < 0.4
+        if two:
+            mods.append({'name': 'm2', 'file': 'm2', 'vars': ['v_m2']})
+            procs.append({'name': 'k4', 'mod': 'm2', 'calls': []})
+        callers = []
+        for j in range(rng.choice([1, 2, 2])):
+            inmod = rng.random() < 0.4
+            ks = rng.sample(['k1', 'k2', 'k3'], rng.randint(1, 3))
+            unq = (i + j) % 2 == 0
+            imps = [{'mod': 'm1', 'only': [] if unq else ks + (['v_m1'] if rng.random() < 0.3 else [])}]
+            if two and rng.random() < 0.6:
+                imps.append({'mod': 'm2', 'only': [] if rng.random() < 0.5 else ['k4']})
+                ks = ks + ['k4']
+            name = f'c{j + 1}'
+            if inmod:
+                mods.append({'name': f'm{j + 3}', 'file': f'm{j + 3}', 'vars': [f'v_m{j + 3}']})
+            callers.append({'name': name, 'mod': f'm{j + 3}' if inmod else '', 'file': f'm{j + 3}' if inmod else name, 'imports': imps, 'calls': ks})
+        P = L.normalize_project({'mods': mods, 'procs': callers + procs})
+        seeds = [c['name'] for c in callers]
+        C = L.make_config(seeds, routines=[L.routine_entry(s, role='driver') for s in seeds] if rng.random() < 0.5 else [])
+        out.append((P, C))
     return out
 
 
@@ -225,21 +281,23 @@ def run(ctx):
     budget = time.time() + (70 if quick else 540)
     max_pairs = 90 if quick else 700
 
-    def add_perm(P, C, ops, classes, iface, origin, base=None):
+    def add_perm(P, C, ops, classes, iface, origin, base=None, renames=None, lseed=0):
         root = os.path.join(ctx.work, f'r{len(runs)}')
-        b = base or run_once(P, C, ops, {}, root + 'b', iface)
-        p = run_once(P, C, ops, classes, root + 'p', iface)
+        b = base or run_once(P, C, ops, {}, root + 'b', iface, renames)
+        p = run_once(P, C, ops, classes, root + 'p', iface, renames, lseed)
         if not os.environ.get('VERIF_KEEP'):
             shutil.rmtree(root + 'b', ignore_errors=True)
             shutil.rmtree(root + 'p', ignore_errors=True)
         runs.append(({'kind': 'perm', 'P': P, 'C': C, 'ops': ops, 'classes': classes, 'iface': iface, 'origin': origin,
+                      'renames': renames or {}, 'lseed': lseed,
                       'detail': p.get('detail', ''), 'base_detail': b.get('detail', '')}, perm_case(b, p)))
         return b
 
     if ctx.replay:
         c = ctx.replay['case']
         if c['kind'] == 'perm':
-            add_perm(L.normalize_project(c['P']), L.normalize_config(c['C']), c['ops'], c['classes'], c['iface'], 'replay')
+            add_perm(L.normalize_project(c['P']), L.normalize_config(c['C']), c['ops'], c['classes'], c['iface'], 'replay',
+                     renames=c.get('renames') or None, lseed=c.get('lseed', 0))
         else:
             runs.append((c, law_case(replay_history(c['events'], c['container']))))
     else:
@@ -273,6 +331,34 @@ def run(ctx):
                     npairs += 1
                     if base['raised']:
                         break       # pipeline not applicable to this project (C25's business)
+        # ---- 2b. renamed imports (ONLY-list renames and rename lists without ONLY), case chosen PER OCCURRENCE: the alias
+        #          in the USE statement and every call site are spelled independently
+        fam = L.prefilter(ctx, rename_family(ctx.rng, 16 if quick else 80))
+        cand = [(P, C, 'rename-family') for P, C in fam]
+        for P, Cfull, origin in pool:
+            Cs = simple_config(ctx.rng, P, False)
+            if Cs is not None and len(cand) < (24 if quick else 200):
+                cand.append((P, Cs, origin))
+        nren = {'unq': 0, 'only': 0}
+        for j, (P, C, origin) in enumerate(cand):
+            ren = rename_requests(ctx.rng, P)
+            styles = rename_styles(P, ren)
+            if not styles:
+                continue
+            base = None
+            for k in range(2 if quick else 3):
+                classes = {'use': 'each'}
+                if k:
+                    classes.update({c: ctx.rng.choice(['upper', 'mixed', 'cap', 'each']) for c in ('def', 'seed', 'cfg', 'file') if ctx.rng.random() < 0.4})
+                base = add_perm(P, C, [], classes, False, origin, base, renames=ren, lseed=ctx.seed * 131 + j * 7 + k + 1)
+                if base['raised']:
+                    break
+                for st in styles:
+                    nren[st] += 1
+        ctx.cover['renamed_import_run_pairs'] = nren
+        need = 10 if quick else 60
+        if min(nren.values()) < need:
+            raise MachineryError(f'vacuity: only {nren} run pairs with renamed imports (at least {need} of each kind required)')
         # ---- 3. collection histories (TLC generated) on real containers of items
         hists = gen_histories(ctx, 40 if quick else 300, 10)
         for h in hists:
@@ -306,7 +392,8 @@ def run(ctx):
         case, t = runs[i]
         clause = verdicts[i][1]
         stage = t['p']['raised'] if clause == 'raised' else ''
-        return f"perm:{clause}{'[' + stage + ']' if stage else ''}:pipe={pipe_sig(case['ops'])}"
+        ren = '+'.join(sorted(rename_styles(case['P'], case['renames']))) if case.get('renames') else 'none'
+        return f"perm:{clause}{'[' + stage + ']' if stage else ''}:pipe={pipe_sig(case['ops'])}:ren={ren}"
 
     trials, owner, per_key = [], [], {}
     for i in failing:
@@ -318,10 +405,11 @@ def run(ctx):
         if per_key[fk] > (2 if quick else 4):
             continue
         root = os.path.join(ctx.work, f'shr{i}')
-        b = run_once(case['P'], case['C'], case['ops'], {}, root + 'b', case['iface'])
+        b = run_once(case['P'], case['C'], case['ops'], {}, root + 'b', case['iface'], case['renames'] or None)
         for c in CLASSES:
             if c in case['classes']:
-                p = run_once(case['P'], case['C'], case['ops'], {c: case['classes'][c]}, root + 'p', case['iface'])
+                p = run_once(case['P'], case['C'], case['ops'], {c: case['classes'][c]}, root + 'p', case['iface'],
+                             case['renames'] or None, case['lseed'])
                 trials.append(perm_case(b, p))
                 owner.append((i, c))
         shutil.rmtree(root + 'b', ignore_errors=True)
